@@ -1,2 +1,8 @@
 import ZbossModel.Props.C15
-#print axioms Zboss.Codec.C15_placeholder
+#print axioms Zboss.Codec.parse_prefix
+#print axioms Zboss.Codec.givenOk_length
+#print axioms Zboss.Codec.C15_failure_prefix
+#print axioms Zboss.Codec.C15_zero_cut_rejected
+#print axioms Zboss.Codec.C15_surplus_rejected
+#print axioms Zboss.Codec.C15_cut_before_status
+#print axioms Zboss.Codec.C15_table_rsp
